@@ -423,17 +423,23 @@ where
 // --------------------------------------------------------------------------------------------
 // polynomials
 
+/// polynomial zero tolerance: 1e-30 for scaled-up or unscaled coefficients; for scaled-DOWN coefficients the default
+/// 1e-10 is left in place (the root finders take the polynomial as it is: its own tolerance must not enter)
 fn poly_real(cf: &[C64], scale: f64) -> Polynomial<f64> {
     let desc: Vec<f64> = cf.iter().rev().map(|z| z.re * scale).collect();
     let mut p = Polynomial::from_slice(&desc);
-    p.set_tolerance(1e-30).unwrap();
+    if scale >= 1.0 {
+        p.set_tolerance(1e-30).unwrap();
+    }
     p
 }
 
 fn poly_cplx(cf: &[C64], scale: f64) -> Polynomial<C64> {
     let desc: Vec<C64> = cf.iter().rev().map(|z| z * scale).collect();
     let mut p = Polynomial::from_slice(&desc);
-    p.set_tolerance(1e-30).unwrap();
+    if scale >= 1.0 {
+        p.set_tolerance(1e-30).unwrap();
+    }
     p
 }
 
@@ -797,7 +803,7 @@ pub fn run_case(case: &Case) -> Outcome {
 
 /// decimal exponent of a common factor on all coefficients: none, or 10^[-8, 4]
 fn scale_exp() -> BoxedStrategy<f64> {
-    prop_oneof![3 => Just(0.0), 2 => gen::fl(-8.0, 4.0)].boxed()
+    prop_oneof![3 => Just(0.0), 2 => gen::fl(-8.0, 4.0), 1 => gen::fl(-13.0, -9.0)].boxed()
 }
 
 /// iteration cap of the polynomial routines: 100, or (one case in six) 0..6 iterations
@@ -885,7 +891,7 @@ pub fn run(opts: &Opts) -> i32 {
         ("rotation-shaped-jacobian", 0.05),
         ("complex-system", 0.03),
     ];
-    spec.rule = "generated: (a) systems F(x)=A(x-r)+eta*N(x-r) of dimension 1-4, A strictly diagonally dominant (|diag| in [1,3], |offdiag| <= 0.25) or diag(|a_kk|) times a product of plane rotations by arbitrary angles (well conditioned, far from symmetric), times 10^[-1,1]; one case in seven a complex-valued system of dimension 1-2 (complex entries, roots and starts, same holomorphic non-linearity); N_i(d)=sin(d_{i+1})d_i+d_{i+2}^2, eta capped so that beta*gamma*|delta|<=0.1, roots in [-3,3]^S, at the origin, or far (|r_i|<=100), starts r+delta (|delta_i|<=0.3), exactly r, or the origin (affine), tol 10^[-10,-3], FD width 10^[-4,-1], n_max=100 or exhaustion caps 0..2, singular class with duplicate integer rows; Newton and secant. (b) polynomials of degree 1-8 expanded from separated roots (grid construction, separation >= 0.3, |z|<=3), Newton starts within 0.8 d/(2n-1) of a chosen root in real and complex arithmetic, Muller triples within 0.1 d (must converge) or 1.5 (may fail), incl. vertical triples; one case in six with an iteration cap of 0-6 (Err, or an Ok that meets the accuracy bound). all coefficients optionally multiplied by 10^[-8,4] (roots unchanged). (c) Steffensen on six contractions r (and a seventh defined on x >= 0.9 only, where an iterate leaving the domain must end in Err, never Ok(NaN)) and their under-relaxations k x+(1-k) r(x), k in [0,0.97] (same fixed point, slope up to ~0.98), with tolerances 10^[-14,-3]. Oracle: Ok within 2 tol + rounding floor of the root (nearest root for Muller; |g(x)-x| <= 10 tol and distance to the fixed point <= 3 tol + 64 eps|x|/(1-slope)^2 for Steffensen; relaxed maps get tol >= 1e3 eps|x|/(1-slope)^2), Err on singular/exhausted input (or an Ok that meets the accuracy bound), never a panic/NaN, call counts bounded exactly by the iteration cap (Newton: at most n_max evaluations each of F and J; secant: 1 + 2S + max(0, n_max-2) of F). Non-trivial = non-affine system of dimension >= 2, special start, far root, tol <= 1e-8, polynomial degree >= 2, every Steffensen case. Distinct = distinct case JSON.".into();
+    spec.rule = "generated: (a) systems F(x)=A(x-r)+eta*N(x-r) of dimension 1-4, A strictly diagonally dominant (|diag| in [1,3], |offdiag| <= 0.25) or diag(|a_kk|) times a product of plane rotations by arbitrary angles (well conditioned, far from symmetric), times 10^[-1,1]; one case in seven a complex-valued system of dimension 1-2 (complex entries, roots and starts, same holomorphic non-linearity); N_i(d)=sin(d_{i+1})d_i+d_{i+2}^2, eta capped so that beta*gamma*|delta|<=0.1, roots in [-3,3]^S, at the origin, or far (|r_i|<=100), starts r+delta (|delta_i|<=0.3), exactly r, or the origin (affine), tol 10^[-10,-3], FD width 10^[-4,-1], n_max=100 or exhaustion caps 0..2, singular class with duplicate integer rows; Newton and secant. (b) polynomials of degree 1-8 expanded from separated roots (grid construction, separation >= 0.3, |z|<=3), Newton starts within 0.8 d/(2n-1) of a chosen root in real and complex arithmetic, Muller triples within 0.1 d (must converge) or 1.5 (may fail), incl. vertical triples; one case in six with an iteration cap of 0-6 (Err, or an Ok that meets the accuracy bound). all coefficients optionally multiplied by 10^[-13,4] (roots unchanged; scaled-down polynomials keep the default zero tolerance 1e-10, which may exceed their leading coefficient and must not matter). (c) Steffensen on six contractions r (and a seventh defined on x >= 0.9 only, where an iterate leaving the domain must end in Err, never Ok(NaN)) and their under-relaxations k x+(1-k) r(x), k in [0,0.97] (same fixed point, slope up to ~0.98), with tolerances 10^[-14,-3]. Oracle: Ok within 2 tol + rounding floor of the root (nearest root for Muller; |g(x)-x| <= 10 tol and distance to the fixed point <= 3 tol + 64 eps|x|/(1-slope)^2 for Steffensen; relaxed maps get tol >= 1e3 eps|x|/(1-slope)^2), Err on singular/exhausted input (or an Ok that meets the accuracy bound), never a panic/NaN, call counts bounded exactly by the iteration cap (Newton: at most n_max evaluations each of F and J; secant: 1 + 2S + max(0, n_max-2) of F). Non-trivial = non-affine system of dimension >= 2, special start, far root, tol <= 1e-8, polynomial degree >= 2, every Steffensen case. Distinct = distinct case JSON.".into();
     spec.max_shrink_iters = 3000;
     run_spec(spec, opts)
 }
